@@ -1,6 +1,7 @@
-(** Property C02 — placeholder while the proofs are being developed (replaced below). *)
+(** Property C02 — DHP never frees an object a guard still protects (interim: the concurrent theorem is being
+    assembled in Proofs/DhpScan*.v; this file lists what is proved so far). *)
 From Coq Require Import ZArith List String.
-From LV Require Import Base.Conc Base.Events Model.DhpLang Model.Dhp.
+From LV Require Import Base.Conc Base.Events Model.DhpLang Model.Dhp Proofs.DhpHist Proofs.DhpSeqThm.
 Import ListNotations.
 Local Open Scope Z_scope.
 
